@@ -184,6 +184,8 @@ def eval_nons(args):
 MANUAL = '''<xs:schema xmlns:xs="http://www.w3.org/2001/XMLSchema"><xs:element name="manual"><xs:complexType><xs:sequence>
  <xs:element name="chapter" maxOccurs="unbounded"><xs:complexType><xs:sequence>
    <xs:element name="p" minOccurs="0" maxOccurs="unbounded"><xs:complexType><xs:simpleContent><xs:extension base="xs:int"><xs:attribute name="id" type="xs:ID"/><xs:attribute name="see" type="xs:IDREF"/></xs:extension></xs:simpleContent></xs:complexType></xs:element>
+   <xs:element name="n" type="xs:string" minOccurs="0" maxOccurs="unbounded"/>
+   <xs:element name="l" minOccurs="0" maxOccurs="unbounded"><xs:simpleType><xs:list itemType="xs:int"/></xs:simpleType></xs:element>
   </xs:sequence><xs:attribute name="id" type="xs:ID"/><xs:attribute name="next" type="xs:IDREF"/></xs:complexType></xs:element></xs:sequence></xs:complexType></xs:element></xs:schema>'''
 
 
@@ -194,7 +196,8 @@ def gen_manual(rng, dangling):
     ref = lambda: 'nowhere' if dangling and rng.random() < .3 else rng.choice(ids)
     out = '<manual>'
     for cid, ps in chapters:
-        out += f'<chapter id="{cid}" next="{ref()}">' + ''.join(f'<p id="{p_}"' + (f' see="{ref()}"' if rng.random() < .6 else '') + f'>{rng.choice(["1", "x"])}</p>' for p_ in ps) + '</chapter>'
+        out += f'<chapter id="{cid}" next="{ref()}">' + ''.join(f'<p id="{p_}"' + (f' see="{ref()}"' if rng.random() < .6 else '') + f'>{rng.choice(["1", "x"])}</p>' for p_ in ps) + \
+            ''.join(f'<n>{rng.choice(["", "t", "u"])}</n>' for _ in range(rng.randrange(0, 4))) + ''.join(f'<l>{rng.choice(["1 2", "3", "", "4 x"])}</l>' for _ in range(rng.randrange(0, 4))) + '</chapter>'
     return out + '</manual>'
 
 
@@ -224,6 +227,15 @@ def eval_refs(args):
             if perrs != want: bad.append(('partial errors', p, perrs[:2], want[:2]))
             derrs = sorted(x.reason for x in s.decode(res, path=p, validation='lax')[1])
             if derrs != want: bad.append(('partial decode errors', p, derrs[:2], want[:2]))
+        # a path that selects several elements: the data is the list of what each of them decodes to, in document order (None for a value that does not decode, included)
+        for k, ch in enumerate(root, 1):
+            for tag in ('p', 'n', 'l'):
+                ps = [c for c in ch if c.tag == tag]
+                if len(ps) < 2: continue
+                n += 1
+                one = [s.decode(res, path=f'/manual/chapter[{k}]/{tag}[{j}]', validation='lax')[0] for j in range(1, len(ps) + 1)]
+                many = s.decode(res, path=f'/manual/chapter[{k}]/{tag}', validation='lax')[0]
+                if many != one: bad.append(('data of a path that selects several elements', f'/manual/chapter[{k}]/{tag}', repr(many)[:80], repr(one)[:80]))
         if not dangling:
             for md in (1, 2, 3):
                 n += 1
